@@ -248,10 +248,24 @@ def runBlockingC08 (line : String) : String :=
   | [o, sig] => (if o == "panic" then "panic" else if o == "bad-op" then "bad-op" else if o == "blocked" then "blocked" else "returned") ++ "\t" ++ sig
   | _ => runBlocking line
 
+/-- stream `batcher_mt` (thorough): an OS-scheduled soak on real threads, judged by the implementation-side oracle
+    alone. The model contributes the verdict the theorems give for EVERY interleaving: accepted = delivered +
+    capacity × truncations once the receiver has drained and returned (C06.partition_fifo, C06.truncation_counted,
+    C09.truncation_discards_exactly_capacity, C08.drain_on_close), no duplicates, per-sender order. -/
+def runMt (line : String) : String :=
+  match Sexp.parse line with
+  | some (.list [.atom "mt", cap, senders, per, .atom mode, seed]) =>
+    match cap.nat?.filter (· ≥ 1), senders.nat?.filter (fun n => n ≥ 1 ∧ n ≤ 16), per.nat?.filter (· ≤ 100000),
+          seed.nat? with
+    | some _, some _, some _, some _ =>
+      if mode == "send" || mode == "try" || mode == "mix" then s!"conserved\tmt-{mode}" else "bad-op"
+    | _, _, _, _ => "bad-op"
+  | _ => "bad-op"
+
 def streams : List (String × (String → String)) :=
   [("batcher", runBatcher), ("batcher_c06", runBatcherProj proj06), ("batcher_c07", runBatcherProj proj07),
    ("batcher_c08", runBatcherProj proj08), ("batcher_c09", runBatcherProj proj09),
    ("batcher_blocking", runBlocking), ("batcher_blocking_c07", runBlocking), ("batcher_blocking_c09", runBlocking),
-   ("batcher_blocking_c08", runBlockingC08)]
+   ("batcher_blocking_c08", runBlockingC08), ("batcher_mt", runMt)]
 
 end EmitModel.Driver.Batcher
